@@ -62,7 +62,7 @@ def run_stream(part: Part, stream: bytes, cuts, kind, cfgname, pkw, label, expec
             V("retained:lines", f"{sum(len(x) for x in p._lines)} bytes of head lines kept (limits {mls}+{mh}x{mfs})")
         pp = p._payload_parser
         if pp is not None:
-            if len(pp._chunk_tail) > max(mls, mfs) + 1 + len(seg) and pp._type.name == "PARSE_CHUNKED" and pp._chunk.name != "PARSE_CHUNKED_CHUNK":
+            if len(pp._chunk_tail) > max(mls, mfs) + 2 and pp._type.name == "PARSE_CHUNKED" and pp._chunk.name != "PARSE_CHUNKED_CHUNK":
                 V("retained:chunk-tail", f"{len(pp._chunk_tail)} bytes kept for an incomplete chunk/trailer line")
             if sum(len(x) for x in pp._trailer_lines) > mh * mfs:
                 V("retained:trailers", f"{sum(len(x) for x in pp._trailer_lines)} bytes of trailer lines kept")
